@@ -13,6 +13,7 @@ type model struct {
 	writes   []int // argument indices (receiver = 0 for methods) whose pointee is written
 	retAlias []int // arguments the pointer-like results may alias
 	retFresh bool
+	stores   [][2]int // {a, b}: what argument b points to is stored into the pointee of argument a (it escapes there)
 }
 
 var pure = &model{}
@@ -128,6 +129,34 @@ func externalModel(fn *ssa.Function) *model {
 		case "Errorf", "Sprintf", "Sprint", "Sprintln":
 			return fresh
 		}
+	case "sync/atomic":
+		switch recv {
+		case "Pointer", "Value":
+			switch name {
+			case "Load":
+				return &model{retAlias: []int{0}}
+			case "Store":
+				return &model{writes: []int{0}, stores: [][2]int{{0, 1}}}
+			case "Swap":
+				return &model{writes: []int{0}, stores: [][2]int{{0, 1}}, retAlias: []int{0}}
+			case "CompareAndSwap":
+				return &model{writes: []int{0}, stores: [][2]int{{0, 2}}}
+			}
+		case "Int32", "Int64", "Uint32", "Uint64", "Uintptr", "Bool":
+			if name == "Load" {
+				return pure
+			}
+			return &model{writes: []int{0}}
+		}
+	case "encoding/json":
+		switch name {
+		case "Unmarshal":
+			return &model{writes: []int{1}}
+		case "Marshal", "MarshalIndent":
+			return fresh
+		case "Valid":
+			return pure
+		}
 	case "slices":
 		switch name {
 		case "Grow", "Clip":
@@ -231,7 +260,9 @@ func (st *fstate) call(c ssa.CallInstruction) {
 			s := st.get(cc.Args[0])
 			out := set{st.site(res, "F"): true}
 			if !capCapped(cc.Args[0]) {
-				st.write(s, false, st.wit(in, "append may write into the spare capacity of its first operand's backing array"))
+				aw := st.wit(in, "append may write into the spare capacity of its first operand's backing array")
+				aw.Append = true
+				st.write(s, false, aw)
 				out.addAll(s)
 			}
 			setRes(0, out)
@@ -390,6 +421,11 @@ func (st *fstate) applyModel(in ssa.Instruction, m *model, args []ssa.Value, _ i
 			st.write(st.get(args[j]), true, st.wit(in, what+" writes its argument"))
 		}
 	}
+	for _, ab := range m.stores {
+		if ab[0] < len(args) && ab[1] < len(args) {
+			st.store(st.get(args[ab[0]]), st.get(args[ab[1]]))
+		}
+	}
 	out := set{}
 	for _, j := range m.retAlias {
 		if j < len(args) {
@@ -427,6 +463,8 @@ func (st *fstate) unmodelled(in ssa.Instruction, name string, args []ssa.Value, 
 		st.changed = true
 	}
 	st.write(all, true, st.wit(in, "unmodelled callee "+name+" (assumed to write every operand)"))
+	// ... and to keep every operand: anything reachable from one operand may afterwards be reachable from another
+	st.store(all, all)
 	if v, ok := in.(ssa.Value); ok {
 		all[st.site(v, "F")] = true
 	}
@@ -456,7 +494,7 @@ func (st *fstate) applySummary(in ssa.Instruction, callee *ssa.Function, sum *Su
 		// a callee's write to its parameter region may reach anything reachable from the argument; a write to
 		// a package-level variable is a write to that variable only (what it points to is labelled separately)
 		if strings.HasPrefix(k, "P") {
-			st.write(mapObj(k), true, &Witness{Fn: st.fn, Pos: in.Pos(), What: "call " + callee.Name(), Via: w})
+			st.write(mapObj(k), true, &Witness{Fn: st.fn, Pos: in.Pos(), What: "call " + callee.Name(), Via: w, Append: !sum.OtherWr[k]})
 		} else {
 			st.write(set{k: true}, false, &Witness{Fn: st.fn, Pos: in.Pos(), What: "call " + callee.Name(), Via: w})
 		}
